@@ -60,7 +60,7 @@ contract(CONN + '._receive_headers_frame', props=['C06', 'C07', 'C09', 'C10', 'C
         ('GI', 'GI(self)')],
     raises=[
         dict(exc='TooManyStreamsError', iff=True, props=['C10'],
-             when='not exists and open_in + 1 > max_concurrent(self.local_settings)',
+             when='not exists and sid > wm_in and sid % 2 != own_parity(self) and open_in + 1 > max_concurrent(self.local_settings)',
              ensures=PEER_ERR),
         dict(exc='DenialOfServiceError', props=['C27', 'C18'], ensures=[('code', 'exc.error_code == ENHANCE_YOUR_CALM', ['C18', 'C27'])]),
         dict(exc='StreamIDTooLowError', props=['C09'], when='not exists and sid <= wm', ensures=PEER_ERR),
